@@ -35,12 +35,34 @@ def unL(tok):
     return "".join(chr(int(x)) for x in b.split(",")) if b else ""
 
 
+class PBytes(bytes):
+    """A large periodic payload that is written into case lines with the compact token P<len>:<hexpattern>
+    (pattern repeated / truncated to <len> bytes; understood by h_util::parse_b and Dcommon.parse_b)."""
+    tok = None
+
+
+def pbytes(n, pattern):
+    pattern = bytes(pattern) or b"\0"
+    b = PBytes((pattern * (n // len(pattern) + 1))[:n])
+    b.tok = "P%d:%s" % (n, pattern.hex())
+    return b
+
+
 def B(b):
+    if isinstance(b, PBytes) and b.tok:
+        return b.tok
     return "B" + bytes(b).hex()
 
 
 def unB(tok):
+    if tok[0] == "P":
+        n, pat = tok[1:].split(":", 1)
+        return pbytes(int(n), bytes.fromhex(pat))
     return bytes.fromhex(tok[1:])
+
+
+# what the size field of a format can store (F21: compress rejects anything longer with InputTooLarge)
+CODEC_LIMIT = {"10": 1 << 24, "13": 1 << 32}
 
 
 def esc(s):
@@ -198,7 +220,8 @@ class FsCase:
 
     def payloads(self):
         """every byte string handed to the byte-level write (directly or through an archive writer)"""
-        return set(bytes(o[3]) for o in self.ops if o[0] == "W") | set(bytes(o[-1]) for o in self.ops if o[0] in ("WA", "WT"))
+        keep = lambda b: b if isinstance(b, PBytes) else bytes(b)
+        return set(keep(o[3]) for o in self.ops if o[0] == "W") | set(keep(o[-1]) for o in self.ops if o[0] in ("WA", "WT"))
 
 
 _counter = [0]
@@ -572,7 +595,15 @@ def check_history(c, impl_out):
             blocked = any(t.get(a, None) is not None for a in anc)     # an ancestor is a file
             can = (not blocked) and (not tr) and len(comps) > 0 and node(t, comps) != "dir"
             key = "/".join(comps)
-            if ret == "ok":
+            too_large = is_compressed_name(game, path) and len(payload) >= CODEC_LIMIT[fmt]
+            if too_large:
+                # the format's size field cannot store the length (F21): the write must fail with the compression error
+                # and change nothing at all
+                if ret != "err:compression":
+                    return where + ": payload of %d bytes cannot be stored as LZ%s: expected a compression error, got %s" % (len(payload), fmt, ret[:60])
+                if new != snap:
+                    return where + ": the rejected write of a too large payload changed the directories"
+            elif ret == "ok":
                 if not can:
                     return where + ": write reported success although the target cannot be a file"
                 for k2 in set(t) | set(new[top]):
@@ -890,6 +921,19 @@ def exhaustive_cases(tier, stream="exhaustive-small"):
         for n in range(1, (2 if tier == "quick" else 3) + 1):
             for h in itertools.product(alphabet, repeat=n):
                 out.append(Case(render_case(FsCase(4, 0, st, list(h)), fresh_base()), stream))
+    return out
+
+
+def size_limit_cases(stream="size-limit-F21"):
+    """FE9 / FE10: a payload of 2^24+5 bytes (and of exactly 2^24) written to a name with the compressed suffix must
+    fail with the compression error and store nothing (F21: it used to succeed, store the size 5 and read back 20
+    bytes); afterwards the path does not exist, and a small payload can still be written there and read back."""
+    out = []
+    for game, n, pat, name in ((1, (1 << 24) + 5, b"\x41", "big.cmp"), (0, 1 << 24, b"\x00\x07", "d/big.cms")):
+        big = pbytes(n, pat)
+        ops = [("W", 0, name, big), ("F", 0, name), ("R", 0, name), ("W", 0, name, b"small payload small payload"), ("R", 0, name)]
+        c = FsCase(game, 0, [[("keep.bin", b"\x01\x02")], []], ops)
+        out.append(Case(render_case(c, fresh_base()), stream))
     return out
 
 
